@@ -103,6 +103,61 @@ def check_large(case, ctx):
     ctx.require(ub >= trivial, "upper_bound_below_trivial_bound", lambda: "ub=%r < %r" % (ub, trivial))
 
 
+@st.composite
+def s_big(draw):
+    def one():
+        return {"family": draw(st.sampled_from(["path", "cycle", "star", "caterpillar", "random_tree", "tree_plus"])),
+                "n": draw(st.one_of(st.sampled_from([126, 127, 128, 129, 130, 255, 256, 257]), st.sampled_from(list(range(60, 261))))),
+                "seed": draw(st.integers(0, 2 ** 31))}
+    return {"g": one(), "h": one(), "seed": draw(st.integers(0, 2 ** 32 - 1)), "order": None, "order_form": "array", "same": draw(st.integers(0, 4)) == 0}
+
+
+def expand_big(sp):
+    n, fam = sp["n"], sp["family"]
+    rng = random.Random(sp["seed"])
+    if fam == "path":
+        edges = [[i, i + 1] for i in range(n - 1)]
+    elif fam == "cycle":
+        edges = [[i, (i + 1) % n] for i in range(n)]
+    elif fam == "star":
+        edges = [[0, i] for i in range(1, n)]
+    elif fam == "caterpillar":
+        spine = max(2, n // 3)
+        edges = [[i, i + 1] for i in range(spine - 1)] + [[rng.randrange(spine), v] for v in range(spine, n)]
+    else:
+        edges = [[rng.randrange(max(0, v - 6), v), v] for v in range(1, n)]
+        if fam == "tree_plus":
+            edges += [[a, b] for a, b in ((rng.randrange(n), rng.randrange(n)) for _ in range(n // 4)) if a != b]
+    perm = list(range(n))
+    rng.shuffle(perm)
+    es = sorted({(min(perm[i], perm[j]), max(perm[i], perm[j])) for i, j in edges if i != j})
+    return {"n": n, "edges": [list(e) for e in es], "kind": fam}
+
+
+def check_big(case, ctx):
+    g = expand_big(case["g"])
+    h = dict(g) if case.get("same") else expand_big(case["h"])
+    if case.get("same"):
+        rng = random.Random(case["seed"])
+        perm = list(range(g["n"]))
+        rng.shuffle(perm)
+        h = G.relabel(g, perm)
+    DX, DY = G.dist(g), G.dist(h)
+    dx, dy = mgh.diameter(DX), mgh.diameter(DY)
+    ctx.label("family:%s" % case["g"]["family"], "n>=128" if max(g["n"], h["n"]) >= 128 else "n<128",
+              "diam<=127,n>=128" if (min(dx, dy) <= 127 and max(g["n"], h["n"]) >= 128) else None, "isomorphic" if case.get("same") else None)
+    ctx.nontrivial(max(g["n"], h["n"]) >= 128)
+    lb, ub = call(ctx, case, g, h)
+    trivial = 0.5 * max(abs(dx - dy), int(g["n"] != h["n"]))
+    ctx.require(ub >= trivial, "upper_bound_below_trivial_bound", lambda: "ub=%r < %r" % (ub, trivial))
+    # half the distortion of ANY map is an upper bound of the one-sided minimum; lb must not exceed the two-sided max of such bounds
+    rng = random.Random(case["seed"] ^ 0x77)
+    mine = 0.5 * max(mgh.greedy_upper(DX, DY, rng, tries=1), mgh.greedy_upper(DY, DX, rng, tries=1))
+    ctx.require(lb <= mine, "lower_bound_exceeds_a_real_distortion", lambda: "lb=%r > %r" % (lb, mine))
+    if case.get("same"):
+        ctx.require(lb == 0, "isomorphic_lower_bound_positive", lambda: "isomorphic graphs with %d vertices: lb=%r" % (g["n"], lb))
+
+
 _ENUM = None
 
 
@@ -146,6 +201,10 @@ CLAUSES = [
     Clause("large_validity", s_pair(13, 18), check_large, quick=800, thorough=8000,
            rule="13..18 vertices (exact value out of reach): 0 <= lb <= ub, half-integrality, lb <= half the distortion of maps found by an "
                 "independent greedy search in both directions, ub >= trivial bound; non-trivial = max diameter >= 3 and lb > 0"),
+    Clause("big_graphs", s_big(), check_big, quick=32, thorough=640,
+           rule="60..260 vertices (sizes around 127/128 and 255/256 favoured: the implementation picks the smallest integer dtype that holds the "
+                "distances): paths, cycles, stars, caterpillars, random trees (+ chords), expanded from a generated seed; no exception, 0 <= lb <= ub, "
+                "half-integrality, ub >= trivial bound, lb <= half the distortion of a greedy map, relabelled copies get lb == 0; non-trivial = >= 128 vertices"),
     Clause("small_slice", cases=slice_cases, check=check_slice,
            rule="EXHAUSTIVE: all 44 x 44 ordered pairs of connected labelled graphs on <= 4 vertices x 3 RNG seeds; oracle cross-checked against "
                 "itertools.product brute force on every pair"),
